@@ -99,7 +99,7 @@ static Reg r_nnload("c13_nnload", [](const Args& a) {
   if (!e.empty() && e != "!E" && e != "!A") bad("foreign-exception", "NearestNeighbor::Load threw " + e);
   if (!e.empty() && (nn._numpoints != np0 || nn._tree.size() != ts0)) bad("output-modified-on-throw", "Load threw but changed the object");
   if (e.empty()) search_loaded(nn, seed);
-  alarm(0);
+  arm(0);
 });
 
 // arbitrary bytes (mutated genuine images, truncations): no model, only "GeographicErr or a usable tree"
@@ -112,7 +112,7 @@ static Reg r_nnfile("c13_nnfile", [](const Args& a) {
   emit(e.empty() ? "1" : e == "!E" ? "0" : e);
   if (!e.empty() && e != "!E" && e != "!A") bad("foreign-exception", "NearestNeighbor::Load threw " + e);
   if (e.empty()) search_loaded(nn, seed);
-  alarm(0);
+  arm(0);
 });
 
 inline void gen_nn(Rng& r, bool thorough) {
